@@ -26,6 +26,11 @@
 (*           "int" | "undef" (a name that cannot be evaluated)                         *)
 (*   horizon, where = "block" (MaxTime line) | "solver" (EquationSolver.MaxTime set    *)
 (*           before ParseString) | "default" (neither: horizon 0) |                    *)
+(*           "both": the block carries a MaxTime line with the value cfg.bmax AND the  *)
+(*           solver attribute is set to cfg.horizon before ParseString (through the    *)
+(*           model: model.MaxTime = bmax, model.EquationSolver.MaxTime = horizon).     *)
+(*           The solver's value wins whenever it is set (not None) - 0 included, and   *)
+(*           whether it is smaller or larger than the block's.                         *)
 (*           "late_ctor" / "late_parse": MaxTime line in the block, then - after       *)
 (*           EquationSolver(<block>) resp. ParseString(<block>) - the attribute        *)
 (*           EquationSolver.MaxTime is assigned cfg.late (larger or smaller).  That    *)
@@ -80,6 +85,13 @@ WellOrdered(vs) ==
 
 ----------------------------------------------------------------------------
 (* what the user supplied *)
+(* the two sources of the horizon, and which one wins *)
+BlockMax(c)  == CASE c.where \in {"block", "late_ctor", "late_parse"} -> c.horizon
+                  [] c.where = "both" -> c.bmax
+                  [] OTHER -> 0                        \* no MaxTime line: the parser's default
+SolverMax(c) == IF c.where \in {"solver", "both"} THEN c.horizon ELSE -1     \* -1: None
+ParsedHorizon(c) == IF SolverMax(c) # -1 THEN SolverMax(c) ELSE BlockMax(c)
+(* the horizon the user asked for, which all C10_* invariants are stated against *)
 HorizonOf(c) == IF c.where = "default" THEN 0 ELSE c.horizon
 IsLate(c) == c.where \in {"late_ctor", "late_parse"}
 
@@ -107,8 +119,8 @@ S0 == [phase |-> "setup", vars |-> << >>, deco |-> {}, horizon |-> 0,
 ParseOp(c) ==
     LET vs == AllVars(c)
     IN [S0 EXCEPT !.phase = "parsed", !.vars = vs, !.deco = DecoSet(vs, c.reduce),
-                  !.horizon = HorizonOf(c),
-                  !.smax = IF c.where = "solver" THEN c.horizon ELSE -1]
+                  !.horizon = ParsedHorizon(c),
+                  !.smax = SolverMax(c)]
 
 (* solver.MaxTime = N after the block was parsed: only the attribute changes *)
 LateAssignOp(s, c) ==
